@@ -251,7 +251,7 @@ def expandPair (e : Elem) (k k1 k2 : Str) : Elem :=
 /-- `expand_compound_size` -/
 def expandCompoundSize (e : Elem) : Elem :=
   let e := e.expandPair cs!"wh" cs!"width" cs!"height"
-  let e := if e.name == cs!"ellipse" then e.expandPair cs!"rxy" cs!"rx" cs!"ry" else e
+  let e := e.expandPair cs!"rxy" cs!"rx" cs!"ry"
   e.expandPair cs!"dwh" cs!"dw" cs!"dh"
 
 def xyLoc (loc : Option Str) : Str × Str :=
@@ -274,7 +274,9 @@ def expandCompoundPos (e : Elem) : Elem :=
   let e := e.expandPair cs!"cxy" cs!"cx" cs!"cy"
   let e := e.expandPair cs!"xy1" cs!"x1" cs!"y1"
   let e := e.expandPair cs!"xy2" cs!"x2" cs!"y2"
-  e.expandPair cs!"dxy" cs!"dx" cs!"dy"
+  let e := e.expandPair cs!"dxy" cs!"dx" cs!"dy"
+  -- `xy-loc` only says which point `xy` names: it is consumed whether or not an `xy` was there
+  (e.popAttr cs!"xy-loc").1
 
 def isSizeAttr (e : Elem) (k : Str) : Bool :=
   if e.name == cs!"text" || e.name == cs!"point" then false
